@@ -326,3 +326,272 @@ Proof.
   assert (Hx : k mod S nx <= nx) by apply mod_le. assert (Hy : k / S nx <= ny) by (apply div_le; exact Hk).
   rewrite border_sidx by exact Hx. apply boundary_border_xy; assumption.
 Qed.
+
+(** * neighbours of an inner point = its four lattice neighbours *)
+Lemma joined_quad ct c p t : quad_ok ct = true ->
+  (joined ct c p t <-> exists a b, a < 4 /\ b < 4 /\ adj a b = true /\ nth a c 0 = p /\ nth b c 0 = t).
+Proof.
+  intro OK. destruct (quad_ok_edges ct OK) as [Hlt Hadj]. unfold joined. split.
+  - intros (a & b & Hin & H). destruct (Hlt a b Hin) as [Ha Hb].
+    assert (Hab : adj a b = true).
+    { rewrite <- Hadj by assumption. unfold edge_in. apply existsb_exists. exists (a, b).
+      split; [exact Hin|]. cbn [fst snd]. apply pair_set_eqb_spec. auto. }
+    destruct H as [[H1 H2]|[H1 H2]].
+    + exists a, b. auto.
+    + exists b, a. repeat split; auto. unfold adj in *. rewrite orb_comm. exact Hab.
+  - intros (a & b & Ha & Hb & Hab & H1 & H2). rewrite <- Hadj in Hab by assumption.
+    unfold edge_in in Hab. apply existsb_exists in Hab. destruct Hab as [[x y] [Hin Hp]].
+    cbn [fst snd] in Hp. apply pair_set_eqb_spec in Hp. exists x, y. split; [exact Hin|].
+    destruct Hp as [[-> ->]|[-> ->]]; auto.
+Qed.
+
+Definition four (nx i j : nat) : list nat :=
+  [sidx nx (S i) j; sidx nx i (S j); sidx nx (S (S i)) (S j); sidx nx (S i) (S (S j))].
+
+Lemma four_NoDup nx i j : S i < nx -> NoDup (four nx i j).
+Proof.
+  intro H. unfold four.
+  repeat (constructor; [cbn [In]; intro E; repeat (destruct E as [E|E]; [apply sidx_inj in E; lia|]); exact E|]).
+  constructor.
+Qed.
+
+Lemma nbrs_interior ct nx ny i j : quad_ok ct = true -> S i < nx -> S j < ny ->
+  forall t, In t (nbrs ct (struct_cells nx ny) (struct_n nx ny) (sidx nx (S i) (S j))) <-> In t (four nx i j).
+Proof.
+  intros OK Hi Hj t. rewrite nbrs_spec. split.
+  - intros (Ht & Hne & c & Hc & _ & Hjn). apply In_struct_cells in Hc. destruct Hc as (i0 & j0 & Hi0 & Hj0 & ->).
+    apply (joined_quad ct _ _ _ OK) in Hjn. destruct Hjn as (a & b & Ha & Hb & Hab & Ea & Eb).
+    clear Ht Hne. subst t. unfold four.
+    destruct a as [|[|[|[|a]]]]; [| | | |lia]; cbn [qcell nth] in Ea; apply sidx_inj in Ea; try lia;
+      destruct Ea as [E1 E2];
+      [ assert (i0 = S i) by lia; assert (j0 = S j) by lia
+      | assert (i0 = i) by lia; assert (j0 = S j) by lia
+      | assert (i0 = i) by lia; assert (j0 = j) by lia
+      | assert (i0 = S i) by lia; assert (j0 = j) by lia ]; subst i0 j0;
+      (destruct b as [|[|[|[|b]]]]; [| | | |lia]; vm_compute in Hab; try discriminate Hab;
+       cbn [qcell nth In]; auto).
+  - unfold four. cbn [In]. intros [<-|[<-|[<-|[<-|[]]]]].
+    + split; [apply sidx_lt; lia|]. split; [intro E; apply sidx_inj in E; lia|].
+      exists (qcell nx i j). split; [apply In_struct_cells; exists i, j; repeat split; lia|].
+      split; [apply In_qcell; lia|]. apply (joined_quad ct _ _ _ OK). exists 2, 1. repeat split; lia.
+    + split; [apply sidx_lt; lia|]. split; [intro E; apply sidx_inj in E; lia|].
+      exists (qcell nx i j). split; [apply In_struct_cells; exists i, j; repeat split; lia|].
+      split; [apply In_qcell; lia|]. apply (joined_quad ct _ _ _ OK). exists 2, 3. repeat split; lia.
+    + split; [apply sidx_lt; lia|]. split; [intro E; apply sidx_inj in E; lia|].
+      exists (qcell nx (S i) j). split; [apply In_struct_cells; exists (S i), j; repeat split; lia|].
+      split; [apply In_qcell; lia|]. apply (joined_quad ct _ _ _ OK). exists 3, 2. repeat split; lia.
+    + split; [apply sidx_lt; lia|]. split; [intro E; apply sidx_inj in E; lia|].
+      exists (qcell nx (S i) (S j)). split; [apply In_struct_cells; exists (S i), (S j); repeat split; lia|].
+      split; [apply In_qcell; lia|]. apply (joined_quad ct _ _ _ OK). exists 0, 3. repeat split; lia.
+Qed.
+
+Lemma nbrs_perm ct nx ny i j : quad_ok ct = true -> S i < nx -> S j < ny ->
+  Permutation (nbrs ct (struct_cells nx ny) (struct_n nx ny) (sidx nx (S i) (S j))) (four nx i j).
+Proof.
+  intros OK Hi Hj. apply NoDup_Permutation; [apply nbrs_NoDup|apply four_NoDup; exact Hi|].
+  apply nbrs_interior; assumption.
+Qed.
+
+(** * the lattice coordinates are harmonic *)
+Open Scope Q_scope.
+Lemma qsum_perm l l' : Permutation l l' -> qsum l == qsum l'.
+Proof.
+  induction 1 as [|x l l' _ IH|x y l|l l' l'' _ IH1 _ IH2]; cbn [qsum fold_right].
+  - reflexivity.
+  - fold (qsum l). fold (qsum l'). rewrite IH. reflexivity.
+  - ring.
+  - rewrite IH1. exact IH2.
+Qed.
+
+Lemma colX_sidx nx x y : (x <= nx)%nat -> colX nx (sidx nx x y) = inject_Z (Z.of_nat x).
+Proof. intro H. unfold colX. rewrite sidx_mod by exact H. reflexivity. Qed.
+
+Lemma rowY_sidx nx x y : (x <= nx)%nat -> rowY nx (sidx nx x y) = inject_Z (Z.of_nat y).
+Proof. intro H. unfold rowY. rewrite sidx_div by exact H. reflexivity. Qed.
+
+Lemma inject_S k : inject_Z (Z.of_nat (S k)) == inject_Z (Z.of_nat k) + 1.
+Proof. rewrite Nat2Z.inj_succ. unfold Z.succ. rewrite inject_Z_plus. reflexivity. Qed.
+
+Lemma lattice_coords_harmonic ct nx ny i j : quad_ok ct = true -> (S i < nx)%nat -> (S j < ny)%nat ->
+  let jn := (sidx nx (S i) (S j), nbrs ct (struct_cells nx ny) (struct_n nx ny) (sidx nx (S i) (S j))) in
+  harmonic_fn (colX nx) jn /\ harmonic_fn (rowY nx) jn.
+Proof.
+  intros OK Hi Hj jn. pose proof (nbrs_perm ct nx ny i j OK Hi Hj) as P.
+  assert (L : qlen (snd jn) == 4).
+  { unfold jn, qlen. cbn [snd]. rewrite (Permutation_length P). reflexivity. }
+  unfold harmonic_fn. rewrite L. unfold jn. cbn [fst snd]. split.
+  - rewrite (qsum_perm _ _ (Permutation_map (colX nx) P)). unfold four. cbn [map qsum fold_right].
+    rewrite !colX_sidx by lia. rewrite !inject_S. ring.
+  - rewrite (qsum_perm _ _ (Permutation_map (rowY nx) P)). unfold four. cbn [map qsum fold_right].
+    rewrite !rowY_sidx by lia. rewrite !inject_S. ring.
+Qed.
+Close Scope Q_scope.
+
+(** * every junction reaches the border *)
+Lemma reach_all ct nx ny : quad_ok ct = true -> 1 <= nx -> 1 <= ny ->
+  forall x y, x <= nx -> y <= ny ->
+    reach (schedule ct (struct_cells nx ny) (struct_n nx ny) []) (sidx nx x y).
+Proof.
+  intros OK Hnx Hny. induction x as [|x IH]; intros y Hx Hy.
+  - apply reach_stop. intro Hin. apply schedule_fst_spec in Hin. destruct Hin as (_ & Hb & _).
+    rewrite boundary_border_xy in Hb by assumption. cbn [Nat.eqb orb] in Hb. discriminate.
+  - destruct (in_dec Nat.eq_dec (sidx nx (S x) y)
+                (map fst (schedule ct (struct_cells nx ny) (struct_n nx ny) []))) as [Hin|Hnot];
+      [|apply reach_stop; exact Hnot].
+    apply schedule_fst_spec in Hin. pose proof Hin as Hfree. destruct Hin as (_ & Hb & _).
+    rewrite boundary_border_xy in Hb by assumption.
+    destruct y as [|y]; [rewrite orb_true_r in Hb; discriminate|].
+    assert (Hxi : S x < nx) by lia. assert (Hyi : S y < ny) by lia.
+    apply (reach_go _ _ (nbrs ct (struct_cells nx ny) (struct_n nx ny) (sidx nx (S x) (S y))) (sidx nx x (S y))).
+    + apply In_schedule. split; [exact Hfree|reflexivity].
+    + apply (nbrs_interior ct nx ny x y OK Hxi Hyi). unfold four. cbn [In]. auto.
+    + apply IH; lia.
+Qed.
+
+(** * all sizes: what the structured map satisfies *)
+Section AllSizes.
+Variables (ct : celltype) (nx ny : nat).
+Hypotheses (OK : quad_ok ct = true) (Hnx : 1 <= nx) (Hny : 1 <= ny).
+Let cells := struct_cells nx ny.
+Let n := struct_n nx ny.
+
+Lemma gen_interior jn fixed : In jn (schedule ct cells n fixed) ->
+  exists i j, S i < nx /\ S j < ny /\ jn = (sidx nx (S i) (S j), nbrs ct cells n (sidx nx (S i) (S j))).
+Proof.
+  destruct jn as [p nb]. intro Hin. apply In_schedule in Hin. destruct Hin as [(Hp & Hb & _) ->].
+  rewrite (sidx_surj nx p) in Hb |- *.
+  assert (Hx : p mod S nx <= nx) by apply mod_le. assert (Hy : p / S nx <= ny) by (apply div_le; exact Hp).
+  revert Hb Hx Hy. generalize (p mod S nx) (p / S nx). intros x y Hb Hx Hy.
+  unfold cells in Hb. rewrite boundary_border_xy in Hb by assumption.
+  destruct x as [|x]; [discriminate|]. destruct y as [|y]; [rewrite orb_true_r in Hb; discriminate|].
+  exists x, y. split; [lia|]. split; [lia|reflexivity].
+Qed.
+
+Lemma gen_four fixed jn : In jn (schedule ct cells n fixed) -> length (snd jn) = 4.
+Proof.
+  intro Hin. destruct (gen_interior jn fixed Hin) as (i & j & Hi & Hj & ->). cbn [snd]. unfold cells, n.
+  rewrite (Permutation_length (nbrs_perm ct nx ny i j OK Hi Hj)). reflexivity.
+Qed.
+
+Lemma gen_reach : forall p, In p (map fst (schedule ct cells n [])) -> reach (schedule ct cells n []) p.
+Proof.
+  intros p Hin. pose proof Hin as Hs. apply schedule_fst_spec in Hs. destruct Hs as (Hp & _).
+  rewrite (sidx_surj nx p). apply reach_all; try assumption; [apply mod_le|apply div_le; exact Hp].
+Qed.
+
+Lemma gen_wf : wf_sched n (schedule ct cells n []).
+Proof. apply schedule_wf_sched. exact gen_reach. Qed.
+
+Lemma gen_harmonic fixed o a b jn : In jn (schedule ct cells n fixed) -> harmonic_at (lattice nx ny o a b) jn.
+Proof.
+  intro Hin. apply schedule_sub in Hin. destruct (gen_wf jn Hin) as (A & B & C).
+  destruct (gen_interior jn [] Hin) as (i & j & Hi & Hj & E).
+  destruct (lattice_coords_harmonic ct nx ny i j OK Hi Hj) as [Hx Hy]. fold cells n in Hx, Hy. rewrite <- E in Hx, Hy.
+  unfold lattice. apply harmonic_fn_at; auto.
+  apply (harmonic_fn_lin (colX nx) (rowY nx) o a b jn Hx Hy).
+Qed.
+
+Lemma lattice_length o a b : length (lattice nx ny o a b) = n.
+Proof. unfold lattice. rewrite map_length, seq_length. reflexivity. Qed.
+
+Lemma gen_fixed_point fixed iters o a b :
+  eqv (iterate iters (schedule ct cells n fixed) (lattice nx ny o a b)) (lattice nx ny o a b).
+Proof.
+  set (sch := schedule ct cells n fixed).
+  assert (S1 : forall s, eqv s (lattice nx ny o a b) -> eqv (sweep sch s) (lattice nx ny o a b)).
+  { intros s E. eapply eqv_trans; [apply sweep_eqv; exact E|].
+    assert (ND : NoDup (map fst sch)) by apply schedule_NoDup.
+    assert (Hlt : forall jn, In jn sch -> fst jn < length (lattice nx ny o a b)).
+    { intros jn Hin. rewrite lattice_length. exact (proj1 (schedule_wf_lt _ _ _ _ _ Hin)). }
+    apply (proj2 (sweep_fixed_point sch _ ND Hlt)).
+    intros jn Hin. apply (gen_harmonic fixed). exact Hin. }
+  assert (G : forall k s, eqv s (lattice nx ny o a b) -> eqv (iterate k sch s) (lattice nx ny o a b)).
+  { induction k as [|k IH]; intros s E; [exact E|]. simpl. apply IH. apply S1. exact E. }
+  apply G. apply eqv_refl.
+Qed.
+
+Lemma gen_not_visited s o a b i :
+  (forall k, k < n -> border nx ny k = true -> (nth k s 0 == nth k (lattice nx ny o a b) 0)%Q) ->
+  length s = n -> ~ In i (map fst (schedule ct cells n [])) -> (nth i s 0 == nth i (lattice nx ny o a b) 0)%Q.
+Proof.
+  intros Hb Ls Hi. destruct (Nat.lt_ge_cases i n) as [Hlt|Hge].
+  - apply Hb; [exact Hlt|]. rewrite <- (boundary_border ct nx ny OK Hnx Hny i Hlt).
+    destruct (is_boundary ct (struct_cells nx ny) i) eqn:E; [reflexivity|].
+    exfalso. apply Hi. apply schedule_fst_spec. repeat split; auto.
+  - rewrite !nth_overflow; [reflexivity|rewrite lattice_length; exact Hge|lia].
+Qed.
+
+Lemma gen_unique o a b h : length h = n ->
+  (forall jn, In jn (schedule ct cells n []) -> harmonic_at h jn) ->
+  (forall k, k < n -> border nx ny k = true -> (nth k h 0 == nth k (lattice nx ny o a b) 0)%Q) ->
+  eqv h (lattice nx ny o a b).
+Proof.
+  intros Lh Hh Hb. apply (harmonic_unique (schedule ct cells n [])).
+  - rewrite lattice_length. exact Lh.
+  - rewrite Lh. exact gen_wf.
+  - exact Hh.
+  - intros jn Hin. apply (gen_harmonic []). exact Hin.
+  - intros i Hi. apply gen_not_visited; assumption.
+  - exact gen_reach.
+Qed.
+
+Lemma gen_converges o a b s : length s = n ->
+  (forall k, k < n -> border nx ny k = true -> (nth k s 0 == nth k (lattice nx ny o a b) 0)%Q) ->
+  forall eps, (0 < eps)%Q -> exists K, forall k, K <= k ->
+    within eps (iterate k (schedule ct cells n []) s) (lattice nx ny o a b).
+Proof.
+  intros Ls Hb eps He. apply convergence; auto.
+  - rewrite lattice_length. exact Ls.
+  - rewrite Ls. exact gen_wf.
+  - apply schedule_NoDup.
+  - intros jn Hin. apply (gen_harmonic []). exact Hin.
+  - intros i Hi. apply gen_not_visited; assumption.
+  - exact gen_reach.
+Qed.
+End AllSizes.
+
+(** the structured-map theorem for every cell type passing [quad_ok] and every size *)
+Theorem lattice_all_sizes ct : quad_ok ct = true -> forall nx ny, 1 <= nx -> 1 <= ny ->
+  let cells := struct_cells nx ny in
+  let n := struct_n nx ny in
+  (forall k, k < n -> is_boundary ct cells k = border nx ny k)
+  /\ (forall fixed jn, In jn (schedule ct cells n fixed) -> length (snd jn) = 4)
+  /\ (forall fixed iters o a b, eqv (iterate iters (schedule ct cells n fixed) (lattice nx ny o a b)) (lattice nx ny o a b))
+  /\ (forall o a b h, length h = n ->
+        (forall jn, In jn (schedule ct cells n []) -> harmonic_at h jn) ->
+        (forall k, k < n -> border nx ny k = true -> (nth k h 0 == nth k (lattice nx ny o a b) 0)%Q) ->
+        eqv h (lattice nx ny o a b))
+  /\ (forall o a b s, length s = n ->
+        (forall k, k < n -> border nx ny k = true -> (nth k s 0 == nth k (lattice nx ny o a b) 0)%Q) ->
+        forall eps, (0 < eps)%Q -> exists K, forall k, K <= k ->
+          within eps (iterate k (schedule ct cells n []) s) (lattice nx ny o a b)).
+Proof.
+  intros OK nx ny Hnx Hny. cbv zeta. split; [|split; [|split; [|split]]].
+  - apply boundary_border; assumption.
+  - intros fixed jn. apply gen_four; assumption.
+  - apply gen_fixed_point; assumption.
+  - apply gen_unique; assumption.
+  - apply gen_converges; assumption.
+Qed.
+
+(** the check holds for the QuadCell tables of the verified revision (so the hypothesis is satisfiable) *)
+Example quad_ok_reference :
+  quad_ok {| ct_sides := [[0; 1]; [1; 2]; [2; 3]; [3; 0]]; ct_edges := [(0, 1); (1, 2); (2, 3); (0, 3)] |} = true.
+Proof. vm_compute. reflexivity. Qed.
+
+(** and for a reordered / flipped table; a table with a diagonal connection or a missing side fails *)
+Example quad_ok_reordered :
+  quad_ok {| ct_sides := [[3; 2]; [0; 3]; [1; 0]; [2; 1]]; ct_edges := [(3, 0); (2, 1); (1, 0); (3, 2)] |} = true.
+Proof. vm_compute. reflexivity. Qed.
+
+Example quad_ok_rejects_diagonal :
+  quad_ok {| ct_sides := [[0; 1]; [1; 2]; [2; 3]; [3; 0]]; ct_edges := [(0, 1); (1, 2); (2, 3); (0, 3); (0, 2)] |} = false.
+Proof. vm_compute. reflexivity. Qed.
+
+Example quad_ok_rejects_missing_side :
+  quad_ok {| ct_sides := [[0; 1]; [1; 2]; [2; 3]]; ct_edges := [(0, 1); (1, 2); (2, 3); (0, 3)] |} = false.
+Proof. vm_compute. reflexivity. Qed.
+
+Example quad_ok_rejects_duplicate_side :
+  quad_ok {| ct_sides := [[0; 1]; [1; 2]; [2; 3]; [3; 0]; [1; 0]]; ct_edges := [(0, 1); (1, 2); (2, 3); (0, 3)] |} = false.
+Proof. vm_compute. reflexivity. Qed.
